@@ -50,6 +50,7 @@ func (l *localExecutor) Start(sess *Session) (shutdown func()) {
 }
 
 func (l *localExecutor) Run(task *Task) {
+	vtrace("ExecRun", task)
 	ctx := backgroundcontext.Get()
 	n := 1
 	if task.Pragma.Exclusive() {
@@ -63,7 +64,9 @@ func (l *localExecutor) Run(task *Task) {
 		}
 		return
 	}
+	vtrace("LimAcquire", task, n, l.sess.p)
 	defer l.limiter.Release(n)
+	defer vtrace("LimRelease", task, n)
 	in, err := l.depReaders(ctx, task)
 	if err != nil {
 		if errors.Match(fatalErr, err) {
